@@ -73,7 +73,12 @@ pub fn run(cfg: &Cfg, rep: &mut Report) {
         scripts[f].fail_via_response = rng.chance(1, 3);
         scripts[g].omnivore = false;
         scripts[g].pulls = vec![Pull { optional: false, conv: Conv::Token }; 2];
-        let built: Built<Dev, Script> = Built::new(&specs, scripts.clone());
+        // the node the message is run on is the nameless root, or (one tree in five) a node with a name of its own
+        let top: &[u8] = if rng.chance(1, 5) { *rng.pick(&[&b"CARD"[..], b"SLOT2", b"INSTrument"]) } else { b"" };
+        if !top.is_empty() {
+            ctx.count("trees.run-on-a-named-node");
+        }
+        let built: Built<Dev, Script> = Built::new_named(top, &specs, scripts.clone());
         let rt = RTree::from_specs(&specs);
         let mut dev = Dev::new();
         let mut c = Context::default();
